@@ -28,6 +28,6 @@ for m in range(-960, 961):
     rows.append(['offset', s, div_to_zero(s, 900), oc, ev(dc0), ev(dc1)])
 for d in range(-4, 12):
     rows.append(['delta', d * 900, div_to_zero(d * 900, 900), ev(ag._to_extended_delta_code(d * 900))])
-for y in list(range(1873, 2127)) + [9999, 0]:
+for y in list(range(1872, 2128)) + [9999, 0]:
     rows.append(['year', y, ag.to_tiny_year(y)])
 json.dump(rows, sys.stdout)
